@@ -18,6 +18,16 @@ COMMON_ASSUMPTIONS = [
 
 PROPS = {}
 NOT_APPLICABLE = {}
+# documents selectable by the first byte of a native-fuzz input (must equal fuzzDocs in harness/robust_test.go)
+FUZZ_DOCS = ["null",
+  '{"a":{"a":[{"a":1,"q":"x"},{"a":[2,3],"q":null},[4,[5]],0],"q":{"a":"r","q":[1,2]}},"q":[[1,{"a":2}],[],"r",null,{"q":{"a":0}}]}',
+  "[1,2,3]", '{"a":[{"b":1,"c":"x"},{"b":2,"c":"y"},{"b":"z"}],"b":{"c":[3,1,2]},"c":"str"}', "[[1,2],[3],[],[[4]]]", '"text"', '[{"a":3},{"a":1},{"a":2}]']
+
+def fuzz(target, fuzztime, **kw):
+    d = {"fuzz": target, "fuzztime": fuzztime, "test": None}
+    d.update(kw)
+    return d
+
 HOOK_COMMITS = ["570615c"]
 NOTES = "All checks: ./check <ID> --tier quick|thorough; exit 0 held / 1 VIOLATION / 2 HARNESS-ERROR (no verdict). Known findings: /verif/KNOWN_FINDINGS.txt. Defects repaired by 'fix:' commits in /repo are listed there as 'fixed:' and their reproductions are replayed from harness/corpus on every run."
 
@@ -107,3 +117,88 @@ prop("C11",
      technique="metamorphic error-preservation under strict evaluation contexts + differential vs reference evaluator; exhaustive singles/pairs, random stacks",
      level_text="All single contexts (thorough: pairs) are enumerated; deeper nestings randomly.",
      min_nontrivial=300)
+
+
+prop("C05",
+     quick=[rapid("TestC05", 40000, shards=4, mem_gb=6)],
+     thorough=[rapid("TestC05", 100000, shards=16, mem_gb=6),
+               fuzz("FuzzC05", "120s", mem_gb=16, wall_timeout=900),
+               fuzz("FuzzC05", "120s", env={"VERIF_FUZZ_EMPTY_CORPUS": 1}, mem_gb=16, wall_timeout=900)],
+     rule="rapid: expressions as byte strings (random bytes incl. invalid UTF-8 and NUL; token soup with hostile lexemes such as U+0080 after an identifier, extreme integers, unterminated delimiters; grammar sentences and their mutants; truncations/splices; deep nestings of every bracket/prefix kind up to 64 KiB; extreme integers in every index/slice slot; all-function document-aware expressions with 30% ill-typed choices; large flat documents) x G-doc documents. Oracle inside the target: recover() around Compile, MustCompile, Search (both forms) and SyntaxError rendering; 20 s watchdog per case; allocation envelope 2048 x (|expr|+|doc|+|result|) + 16 MiB for inputs > 4 KiB; and the semantic oracle: lexable texts must be accepted iff grammatical (reference Pratt parser = CFG) and grammatical ones must evaluate like the reference model. Thorough adds native coverage-guided fuzzing (go test -fuzz) of the same target, once seeded with the repository's fuzz corpus + hostile constants and once with an empty corpus. Non-trivial: the input lexes completely or belongs to a hostile class; classes: lex-error, parse-error, evaluated-ok, evaluated-error, deep-nesting, extreme-integer, large-doc, out-of-domain (invalid UTF-8 / integers beyond int64).",
+     technique="property-based robustness testing with a semantic oracle inside the target (rapid) + native coverage-guided fuzzing in the thorough tier",
+     level_text="Crash/termination/resource oracle over generated and mutated byte strings, with the differential oracle inside the target so that it is not crash-only. Termination is checked as 'returns within a 20 s watchdog on everything generated'; liveness cannot be established by testing.",
+     min_nontrivial=5000,
+     assumptions=["native fuzzing cannot be pinned to VERIF_SEED; its reproducible unit is the saved input (replay file)", "the watchdog (20 s, >= 10^4 x the normal cost) and the allocation envelope are generous bounds, not tight ones"])
+
+prop("C06",
+     quick=[rapid("TestC06", 30000)],
+     thorough=[rapid("TestC06", 100000, shards=16), rapid("TestC12", 1500, shards=4, race=True, env={"VERIF_C12_MODE": "reader"})],
+     rule="rapid: (a) 35 templates applying every reordering/combining function (sort_by, sort, reverse, merge, to_array, map, max_by, flatten, slices, pipes) to documents whose arrays are visibly unsorted, optionally wrapped in a strict context, with a poisoned last key so that by-expression functions fail after partial work; (b) document-aware all-function expressions on those documents; (c) on G-doc documents. The document is rebuilt so that every array has hidden spare capacity filled with sentinels. Oracle: deep snapshot before == after (array order included) and sentinel tails intact, after the one-shot Search and after Compile+Search, on success and on error paths; thorough additionally runs searches under the race detector while another goroutine deep-reads the same document. Non-trivial: the reference evaluation shows that a function call or projection was evaluated (classes list call.<function>, path.success / path.error).",
+     technique="invariant over generated (expression, document) pairs: deep snapshot equality + spare-capacity sentinels; race detector with a concurrent reader (thorough)",
+     level_text="A write that restores the old value is invisible to a snapshot; the thorough tier's concurrent reader under -race covers it.",
+     min_nontrivial=3000)
+
+prop("C12",
+     quick=[rapid("TestC12", 500, shards=4, race=True, gomaxprocs=4)],
+     thorough=[rapid("TestC12", 3000, shards=8, race=True, gomaxprocs=4), rapid("TestC12", 1500, shards=4, race=True, gomaxprocs=2), rapid("TestC12", 1500, shards=4, race=True, gomaxprocs=16)],
+     rule="rapid cases (expression, document) from three sources (expressions whose literals are shared by the compiled AST and flow into sort_by/reverse/merge; the C06 templates on unsorted documents; document-aware all-function expressions) x 5 modes (one compiled expression + one shared document; + private documents; one-shot Search from all goroutines; mixed with concurrent Compile of other expressions; with a concurrent deep reader of the document): 8 goroutines x 20 iterations released by a barrier, binary built with -race (GORACE=halt_on_error: a report fails the run and is attributed to the running case through a breadcrumb file). Oracle: no race report; every goroutine's result equals the sequential result (bag-aware) which equals the reference model; the shared document is unchanged. Non-trivial: at least two goroutines overlapped and the expression reaches a function or projection.",
+     technique="concurrent execution of generated cases under the Go race detector + per-goroutine result = sequential result = reference model",
+     level_text="The race detector is happens-before based, so coverage is driven by which code paths run concurrently (controlled by the generator) rather than by timing luck; an atomicity violation without a data race is found only if it changes a result in an explored run. The harness does not own the scheduler: reduced strength, see DESIGN.md section 10.",
+     min_nontrivial=200,
+     assumptions=["schedules are not enumerated: the Go scheduler is not controlled by the harness", "a schedule-dependent failure is replayed by re-running the case 200 times under -race"])
+
+prop("C13",
+     quick=[rapid("TestC13", 1500, shards=4)],
+     thorough=[rapid("TestC13", 10000, shards=16, timeout="2h")],
+     rule="rapid state machine (t.Repeat): state = pool of <= 6 compiled expressions (literal-sharing expressions, reorder templates, document-aware all-function expressions), pool of <= 6 documents (live objects), one long-lived Parser; actions compile / add document / search(i,j) / repeat / one-shot / parse valid / parse invalid (unclosed raw strings after an escaped quote, bad escapes, every parser error site, random bytes) / parse long-then-short; invariant after every step: every pool document deep-equals its original. Model: each search equals a freshly compiled expression on a deep copy of the original document, the one-shot Search, and the reference model (bag-aware); each reused-parser Parse equals NewParser().Parse (AST dump, error text, SyntaxError fields). Non-trivial: a history with >= 2 searches on one compiled expression where an earlier one failed or used another document, or a valid parse after an invalid one on the reused Parser. Distinct by hash of the action trace.",
+     technique="stateful model-based testing (rapid state machine) against the model 'fresh Compile / fresh Parser per call' and the reference evaluator",
+     level_text="Histories are explored randomly and shrink as one value; the replay file is the action trace.",
+     min_nontrivial=300)
+
+prop("C14",
+     quick=[rapid("TestC14Quoted", 20000), rapid("TestC14Raw", 20000), rapid("TestC14Literal", 20000), plain("TestC14Identifiers")],
+     thorough=[rapid("TestC14Quoted", 100000, shards=5), rapid("TestC14Raw", 100000, shards=5), rapid("TestC14Literal", 100000, shards=6), plain("TestC14Identifiers")],
+     rule="round trips over Unicode strings biased to hard characters (quotes, backslash, backtick, slash, control characters, U+0080, U+2028, U+FFFD, BOM, combining marks, astral planes) and JSON values containing them: quoted identifier written with a randomised JSON escaper (literal / short escape / \\uXXXX upper+lower / surrogate pairs) selects exactly key s (also after a dot and as multi-select hash key); raw string with ' written as \\' denotes exactly s (raw domain only), also inside a larger expression; backtick literal with randomised escaping/whitespace denotes exactly v (standard library as referee of the spelling); exhaustive: all 1- and 2-character ASCII strings and all 3-character strings over a 19-character alphabet are unquoted identifiers iff they match [A-Za-z_][A-Za-z0-9_]*. Whitespace insignificance is exercised by the random renderings of C03/C04. Non-trivial: the string needs an escape or contains a non-ASCII rune; every literal; every identifier candidate.",
+     technique="round-trip properties with randomised escapers (rapid) + exhaustive short identifiers",
+     level_text="Round trips need no reference implementation; the standard library's JSON decoder referees the spellings the harness writes.",
+     min_nontrivial=10000)
+
+prop("C15",
+     quick=[rapid("TestC15Pipe", 20000), rapid("TestC15Subst", 20000)],
+     thorough=[rapid("TestC15Pipe", 100000, shards=8), rapid("TestC15Subst", 100000, shards=8)],
+     rule="rapid: (a) pairs (A, B), B generated against the value of A: Search('(A) | (B)', d) vs Search(B, Search(A, d)): equal values, error exactly when a step errors; (b) sub-expression S in one of 26 root-evaluated contexts C (pipe left, ||/&& operands, multi-select members, function arguments, comparator operands, projection left-hand sides, ...): Search(C[S], d) vs Search(C[literal(Search(S, d))], d). The library is compared with itself; the reference model only supplies the ambiguity verdict and the bag structure for order-insensitive comparison. Non-trivial: A non-identity with non-null result and B not a literal; S not already a literal.",
+     technique="algebraic laws checked on the library itself (metamorphic): pipe splitting and literal substitution",
+     level_text="Metamorphic relations over generated expressions and documents; no expected answers needed.",
+     min_nontrivial=3000)
+
+prop("C16",
+     quick=[rapid("TestC16", 40000)],
+     thorough=[rapid("TestC16", 150000, shards=16)],
+     rule="rapid: G-doc documents (numbers |x| <= 1e15) x (a) every function with closure-threatening arguments (empty arrays/objects/strings, 'inf', 'nan', 'Infinity', '1e999', '0x1p4', empty projections/slices) in 5 contexts, (b) document-aware all-function expressions. Precondition: the expression is a sentence of the strict grammar (expression references only as function arguments). Oracle (validity predicate): on success the result consists only of nil, bool, finite float64, string, non-nil []interface{} and non-nil map[string]interface{}, json.Marshal succeeds and json.Unmarshal of the text deep-equals the result. Non-trivial: Search succeeded with a non-null result; classes: result type, top-level node, top-level function.",
+     technique="validity predicate (type walk + JSON marshal/unmarshal round trip) over generated expressions",
+     level_text="Closure is a predicate on every reachable result; no reference needed.",
+     min_nontrivial=5000)
+
+prop("C17",
+     quick=[plain("TestC17Sites"), rapid("TestC17Random", 60000)],
+     thorough=[plain("TestC17Sites"), rapid("TestC17Random", 200000, shards=16), fuzz("FuzzC17", "120s", fuzz_kind="contract", mem_gb=16, wall_timeout=900)],
+     rule="~130 texts aimed at each lexer/parser failure site in 6 contexts; random bytes (incl. invalid UTF-8, NUL), token soup, hard Unicode strings, sentences, mutants, truncations at every byte offset, spliced runes/bytes. Contract predicate: exactly one of (expression, error); for a SyntaxError: Expression == input, 0 <= Offset <= len(input), HighlightLocation() == input + newline + Offset spaces + '^' without panicking, Error() non-empty; MustCompile panics iff Compile failed with a string containing strconv.Quote(input), else its expression behaves like Compile's on two documents and matches the reference model. Non-trivial: Compile failed; classes: site:<message template>, offset:0/interior/len, syntaxerror/other-error.",
+     technique="contract predicate over generated byte strings (rapid) + native fuzzing with the same predicate (thorough)",
+     level_text="Every failure path is reached through generated inputs; the evidence lists the distinct message templates reached so that a missing site is visible.",
+     min_nontrivial=5000)
+
+prop("C18",
+     quick=[rapid("TestC18Equiv", 20000), rapid("TestC18Lowercase", 10000), rapid("TestC18NoPanic", 20000), plain("TestC18HandWritten")],
+     thorough=[rapid("TestC18Equiv", 100000, shards=8), rapid("TestC18Lowercase", 50000, shards=2), rapid("TestC18NoPanic", 100000, shards=6), plain("TestC18HandWritten")],
+     rule="rapid: struct types built at run time (reflect.StructOf / SliceOf / PointerTo): nested structs by value and by pointer (nil and non-nil), non-nil slices of structs / pointers (with nil elements) / strings / float64 / slices, scalar leaves string, float64, bool, int; root by value or by pointer; values filled by rapid; generic twin = JSON round trip of the Go value. (a) navigational fragment (exact field names, index, slice, flatten, list and filter projections with !/||/&& conditions, multi-select, pipe, length() of slices and strings): JSON-normalised struct result == generic result, error presence equal; (b) lower-case first letter: same result as the exported spelling on the struct form; (c) all-function document-aware expressions: no panic; (d) hand-written types (unexported, embedded, caseless-script fields, nil roots/elements) x ~100 expressions x 4 contexts: no panic, nil pointers behave as null. Non-trivial: the type contains a pointer or typed slice and the generic result is non-null or the document contains a null.",
+     technique="differential struct form vs generic JSON form over run-time generated struct types (rapid + reflect.StructOf), recover() for the no-panic half",
+     level_text="Types and values are generated; comparators, object wildcards, functions other than length, nil slices and pointer-to-pointer fields are outside the property's domain and are not asserted.",
+     min_nontrivial=3000)
+
+prop("C19",
+     quick=[rapid("TestC19", 400, shards=8, needs_jpgo=True)],
+     thorough=[rapid("TestC19", 4000, shards=16, needs_jpgo=True)],
+     rule="rapid: (expression, input text, channel) triples run through the freshly built cmd/jpgo binary: expressions valid (document-aware all-function), invalid (mutants, random bytes), failing at evaluation, with unserialisable results (sum overflowing to +Inf), flag-like ('-1', '--', '-ast'); inputs valid JSON (compact, indented, padded), invalid (truncated at a random byte, trailing garbage, empty, bare words, invalid UTF-8, two values); channels stdin and -input file; with or without '--'. Oracle: the library in-process on json.Unmarshal(input): success => exit 0 and stdout decodes to exactly the library's value (bag-aware); otherwise exit != 0 and empty stdout. Non-trivial: a failure case, or a success with non-null output; classes per reason and channel.",
+     technique="differential CLI-vs-library testing over generated (expression, input, channel) triples",
+     level_text="Each case starts the real binary; expressions containing NUL cannot be passed as an argument and are discarded.",
+     min_nontrivial=500)
